@@ -8,7 +8,7 @@ from common import *
 from wholeprog import *
 
 PID = "C01"
-NATIVE_FEATS = {"cast", "large", "struct", "method", "method-val", "struct-fn", "fixed-array", "dyn-array", "optional", "match", "while", "for", "recursion"}
+NATIVE_FEATS = {"cast", "large", "struct", "method", "method-val", "struct-fn", "fixed-array", "dyn-array", "optional", "match", "while", "for", "recursion", "eval-order", "eval-order-struct"}
 
 
 def main():
